@@ -111,6 +111,7 @@ type srcOpts struct {
 	By          bool   // programs are bystanders: plain functions next to a generator (C13)
 	CompileOnly bool   // stop after compiling and building the generated packages (C11)
 	Box         bool   // generators of element type *rt.Box (fresh objects), adapted to the int protocol by rt.BoxIt
+	BoxVal      bool   // with Box: element type rt.BoxV (struct value, composite literal operands), adapter rt.BoxVIt
 	PerPkg      int    // programs per package (crash isolation granularity)
 	Race        bool
 }
@@ -344,7 +345,7 @@ func runSrcFamilyN(c *vf.Check, cases []srcCase, callsOf func(i int) int, o srcO
 	writeFile(filepath.Join(dir, "common.go"), drvCommon)
 
 	// native package: all programs
-	natR := &srcRenderer{md: natMode}
+	natR := &srcRenderer{md: natMode, boxV: o.BoxVal}
 	const per = 400
 	for fi := 0; fi*per < np || fi == 0; fi++ {
 		var b strings.Builder
@@ -360,7 +361,7 @@ func runSrcFamilyN(c *vf.Check, cases []srcCase, callsOf func(i int) int, o srcO
 					fmt.Fprintf(&b, "\tB%d,\n", i)
 				}
 			} else if o.Box {
-				b.WriteString("var All = []func(*rt.Rec, int, int) *rt.NIterT[*rt.Box]{\n")
+				b.WriteString("var All = []func(*rt.Rec, int, int) *rt.NIterT[" + boxElem(o) + "]{\n")
 				for i := 0; i < np; i++ {
 					fmt.Fprintf(&b, "\tG%d,\n", i)
 				}
@@ -392,8 +393,9 @@ func runSrcFamilyN(c *vf.Check, cases []srcCase, callsOf func(i int) int, o srcO
 		writeFile(filepath.Join(dir, "nat", fmt.Sprintf("f%d.go", fi)), b.String())
 	}
 
+	// (box helpers: see boxElem / boxAdapter)
 	// go-co packages: one program per file, PerPkg per package
-	coR := &srcRenderer{md: coMode, api: api, form: o.Form}
+	coR := &srcRenderer{md: coMode, api: api, form: o.Form, boxV: o.BoxVal}
 	hdr := func(pkg string) string {
 		if o.By {
 			// a side-effect import and an import used only by non-generator code: both must survive
@@ -435,7 +437,7 @@ func runSrcFamilyN(c *vf.Check, cases []srcCase, callsOf func(i int) int, o srcO
 			}
 			elem := "int"
 			if o.Box {
-				elem = "*rt.Box"
+				elem = boxElem(o)
 			}
 			all.WriteString("var All = map[int]func(*rt.Rec, int, int) " + api + "Iter[" + elem + "]{\n")
 			for _, i := range live {
@@ -463,7 +465,7 @@ func runSrcFamilyN(c *vf.Check, cases []srcCase, callsOf func(i int) int, o srcO
 		if o.By {
 			fmt.Fprintf(&reg, "\tfor k, v := range gen%03d.All {\n\t\tv := v\n\t\tgenAll[k] = func(r *rt.Rec, a, b int) It { return &byIt{f: v, r: r, a: a, b: b, extras: gen%03d.Extras} }\n\t}\n", pk, pk)
 		} else if o.Box {
-			fmt.Fprintf(&reg, "\tfor k, v := range gen%03d.All {\n\t\tv := v\n\t\tgenAll[k] = func(r *rt.Rec, a, b int) It { return &rt.BoxIt{In: v(r, a, b)} }\n\t}\n", pk)
+			fmt.Fprintf(&reg, "\tfor k, v := range gen%03d.All {\n\t\tv := v\n\t\tgenAll[k] = func(r *rt.Rec, a, b int) It { return &"+boxAdapter(o)+"{In: v(r, a, b)} }\n\t}\n", pk)
 		} else {
 			fmt.Fprintf(&reg, "\tfor k, v := range gen%03d.All {\n\t\tv := v\n\t\tgenAll[k] = func(r *rt.Rec, a, b int) It { return v(r, a, b) }\n\t}\n", pk)
 		}
@@ -471,7 +473,7 @@ func runSrcFamilyN(c *vf.Check, cases []srcCase, callsOf func(i int) int, o srcO
 			if _, err := os.Stat(filepath.Join(dir, fmt.Sprintf("gen%03dstage", pk))); err == nil {
 				fmt.Fprintf(&imp, "\ttmp%03d \"scratch/gen%03dstage\"\n", pk, pk)
 				if o.Box {
-					fmt.Fprintf(&reg, "\tfor k, v := range tmp%03d.All {\n\t\tv := v\n\t\ttmpAll[k] = func(r *rt.Rec, a, b int) It { return &rt.BoxIt{In: v(r, a, b)} }\n\t}\n", pk)
+					fmt.Fprintf(&reg, "\tfor k, v := range tmp%03d.All {\n\t\tv := v\n\t\ttmpAll[k] = func(r *rt.Rec, a, b int) It { return &"+boxAdapter(o)+"{In: v(r, a, b)} }\n\t}\n", pk)
 				} else {
 					fmt.Fprintf(&reg, "\tfor k, v := range tmp%03d.All {\n\t\tv := v\n\t\ttmpAll[k] = func(r *rt.Rec, a, b int) It { return v(r, a, b) }\n\t}\n", pk)
 				}
@@ -484,7 +486,7 @@ func runSrcFamilyN(c *vf.Check, cases []srcCase, callsOf func(i int) int, o srcO
 		drv = strings.Replace(drv, "return nat.All[in.Idx](r, a, b)", "return &byIt{f: nat.All[in.Idx], r: r, a: a, b: b, extras: nat.Extras}", 1)
 	}
 	if o.Box {
-		drv = strings.Replace(drv, "return nat.All[in.Idx](r, a, b)", "return &rt.BoxIt{In: nat.All[in.Idx](r, a, b)}", 1)
+		drv = strings.Replace(drv, "return nat.All[in.Idx](r, a, b)", "return &"+boxAdapter(o)+"{In: nat.All[in.Idx](r, a, b)}", 1)
 	}
 	writeFile(filepath.Join(dir, "main.go"), drv)
 	args := []string{"build", "-o", "driver"}
@@ -845,4 +847,18 @@ func judgeSrc(c *vf.Check, fam string, cases []srcCase, run *srcRun, flags strin
 		vf.Machinery("specification disagrees with native Go on %d cases (the spec must be fixed, this is never a violation); first:\n%s", st.SpecNat, specNatMsg)
 	}
 	return st
+}
+
+func boxElem(o srcOpts) string {
+	if o.BoxVal {
+		return "rt.BoxV"
+	}
+	return "*rt.Box"
+}
+
+func boxAdapter(o srcOpts) string {
+	if o.BoxVal {
+		return "rt.BoxVIt"
+	}
+	return "rt.BoxIt"
 }
